@@ -92,8 +92,12 @@ Definition nat_set_eqb (a b : list nat) : bool :=
 Definition dec_bits (s : sexp) : option (bool * list nat) := dec_pair dec_bool (dec_list dec_nat) s.
 Definition dec_tipidx (s : sexp) : option (string * Z) := dec_pair dec_string dec_Z s.
 
+(** the tips of Go's result: the specification's leaves, or Tips() when the root itself is a
+    tip (the single-branch tree with 2 tips) *)
+Definition names_of (g : utree) : list string := if is_tip g then tip_names g else leaves g.
+
 Definition indexes_ready (g : utree) (o : sexp) : option string :=
-  let sorted := ssort (leaves g) in
+  let sorted := ssort (names_of g) in
   match get_strings "tipindex" o, (x <- get "tipidx" o ;; dec_list dec_tipidx x),
         (x <- get "bits" o ;; dec_list dec_bits x) with
   | Some ti, Some tidx, Some bits =>
@@ -133,9 +137,9 @@ Definition oracle_tree (gen : string) (n : nat) (rooted : bool) (names : list st
   first_some
     [ audit_ok o;
       (if wf g then None else Some "result is not a well-formed structure");
-      (if sset_eqb (ssort (leaves g)) (ssort exp) then None
+      (if sset_eqb (ssort (names_of g)) (ssort exp) then None
        else Some "the tips are not exactly the requested, uniquely named tips");
-      (if Nat.eqb (length (sset (leaves g))) (length exp) then None else Some "tip names are not unique");
+      (if Nat.eqb (length (sset (names_of g))) (length exp) then None else Some "tip names are not unique");
       (if isstar then (if star g && Nat.eqb (degree g) (length exp) then None else Some "not a star: more than one inner node")
        else if Nat.eqb (length exp) 2 && negb rooted
             then (match g with UNode _ _ [Some (_, c)] => if is_tip c then None else Some "2-tip tree is not a single branch"
